@@ -196,31 +196,6 @@ KW = {
 GET = {}
 # class -> callable(kwargs, val) -> object, for classes the generic path cannot build
 BUILD = {}
-
-
-# KMIP 2.0 Attribute References in GetAttributes / GetAttributeList: the library's API takes attribute NAMES for every
-# version and writes them as tag enumerations under 2.0.  The abstract value carries the tags (that is what is on the
-# wire); the caller-side object carries the names.
-def _ref_to_name(tag):
-    return enums.convert_attribute_tag_to_name(tag)
-
-
-def _refs_of(obj):
-    try:
-        return [enums.convert_attribute_name_to_tag(n) for n in (obj.attribute_names or [])] or None
-    except ValueError:
-        return None                # a custom name: no tag, no reference form
-
-
-for _c in ("GetAttributesRequestPayload", "GetAttributeListResponsePayload"):
-    KW[(_c, "attribute_references")] = "attribute_names"
-    WRAP[(_c, "attribute_references")] = _ref_to_name
-    GET[(_c, "attribute_references")] = _refs_of
-
-
-def attribute_reference_tags():
-    """Every attribute the library's own name table knows, as tag numbers (the value pool of the reference fields)."""
-    return [e[1].value for e in enums.attribute_name_tag_table]
 TMPL_CLASS = {"TEMPLATE_ATTRIBUTE": "TemplateAttribute", "COMMON_TEMPLATE_ATTRIBUTE": "CommonTemplateAttribute",
               "PRIVATE_KEY_TEMPLATE_ATTRIBUTE": "PrivateKeyTemplateAttribute",
               "PUBLIC_KEY_TEMPLATE_ATTRIBUTE": "PublicKeyTemplateAttribute"}
